@@ -6,6 +6,13 @@ ASSUMPTIONS = ['where the documents leave an order open the spec admits it; the 
 EXPLANATION = 'mode checks of the dispatcher under contract against the reference automaton / precedence table'
 VG = ['src/dispatchers/var_getput.m4']
 
+def driver_mode_jobs(prop):
+    FMISC = ['src/drivers/ncmpio/ncmpio_file_misc.c', 'src/drivers/common/error_mpi2nc.c']
+    common = dict(replace=['ncmpio_end_indep_data', 'ncmpio_file_misc.c:dup_NC', 'ncmpio_free_NC', 'ncmpio_close_files'], unwind=8, kind='proof', timeout=300,
+                  assumptions=['ncmpio_redef / ncmpio_abort: ncmpio_end_indep_data, dup_NC, ncmpio_free_NC, ncmpio_close_files by (assumed) contracts with a ghost call log'])
+    return [Job('%s/ncmpio_redef' % prop, prop, FMISC, 'C14_driver_modes.c', enforce='ncmpio_redef', defines=['-DH_redef'], canaries=['left_independent_mode', 'from_collective_mode', 'no_copy_no_define_mode'], **common),
+            Job('%s/ncmpio_abort' % prop, prop, FMISC, 'C14_driver_modes.c', enforce='ncmpio_abort', canaries=['new_file_removed', 'redefinition_discarded', 'four_steps'], **common)]
+
 def jobs(tier, ws):
     js = []
     js.append(Job('C14/sanity_check', 'C14', VG, 'C14_sanity.c', enforce='var_getput.c:sanity_check',
@@ -16,4 +23,5 @@ def jobs(tier, ws):
                       defines=['-DAPI=' + api, '-DAPI_EXTRA=' + extra], include_tus=INC, extra_src=['stubs/mpi_model.c'], rfp=True,
                       canaries=['noerr', 'ebadid', 'rejected_or_driver_error'], unwind=4, kind='proof', timeout=600,
                       assumptions=['driver entries are arbitrary (contract: any return code); safe-mode (NC_MODE_SAFE) path not covered in this instance']))
+    js += driver_mode_jobs('C14')
     return js
